@@ -3,6 +3,9 @@ symbolic output sequences it can return. Items: ('lit', text) | ('child', path, 
 ('ws',) | ('loop', path, items, sep) | ('opt', path, items) | ('unk', why).  Paths are tuples of field names rooted at a
 pattern-bound variable or parameter."""
 from lib import hir as H
+kind_ = H.kind
+import re as _re0
+AST_ARG = _re0.compile(r"blots_core::(ast::|values::SerializableValue|values::LambdaArg|values::SerializableLambdaDef|heap::)")
 
 MAX_PATHS = 64
 PASS_THROUGH = {"to_string", "clone", "as_str", "to_owned", "into", "as_ref", "borrow", "deref", "to_lowercase_not"}
@@ -21,6 +24,20 @@ class Interp:
         self.crate = crate
         self.printers = printers  # set of def paths that print an AST node / value to text
         self.templates = templates  # fn(macro node) -> [template dicts]
+        # helpers recognised by what they are, not by their names:
+        #  - indentation: a function from integers to a String (make_indent)
+        #  - record-key quoting: a printer from a &str to a String (format_record_key)
+        self.ws_fns, self.key_fns = set(), set()
+        for d, f in getattr(crate, "hir", {}).items():
+            if not (d.startswith("blots_core::formatter::") or d.startswith("blots_core::ast_to_source::")) or f.get("output") != "alloc::string::String":
+                continue
+            inp = f.get("inputs", [])
+            if inp and all(t in ("usize", "u32", "u8", "i32", "u16") for t in inp):
+                self.ws_fns.add(d)
+            if inp == ["&str"] and d in printers and any(kind_(x) == "Call" and H.last(x.get("def") or "").startswith("is_valid") for x in H.walk(f.get("body") or {})):
+                self.key_fns.add(d)
+        if not self.key_fns:
+            self.key_fns = {d for d in printers if H.last(d) == "format_record_key"}
 
     # ---- paths
     def path_of(self, n, env):
@@ -103,13 +120,40 @@ class Interp:
             return alts
         if k == "Call":
             d = n.get("def") or ""
-            if H.last(d) in ("make_indent",):
+            if H.last(d) in ("make_indent",) or d in self.ws_fns:
                 return [(("ws",),)]
+            hf_ = getattr(self.crate, "hir", {}).get(d)
+            if d in self.printers and hf_ is not None and hf_.get("inputs") and not AST_ARG.search(hf_["inputs"][0]) and d not in self.key_fns:
+                # a text helper of the printer modules (takes strings / flags, not an AST node): interpret its body with the
+                # parameters bound to the arguments; anything it does that is not modelled shows up as `unk`
+                depth_ = getattr(self, "_depth", 0)
+                if depth_ < 3 and hf_.get("output") == "alloc::string::String" and hf_.get("body") is not None and len(hf_.get("params", [])) == len(n["args"]):
+                    env2 = {}
+                    for p_, a_, t_ in zip(hf_["params"], n["args"], hf_["inputs"]):
+                        bn = H.pat_binds(p_)
+                        if len(bn) != 1:
+                            continue
+                        if t_.lstrip("&").startswith(("alloc::string::String", "str")):
+                            env2[bn[0]] = Val("str", self.seqs(a_, env))
+                        else:
+                            pp = self.path_of(a_, env)
+                            env2[bn[0]] = Val("path", pp) if pp is not None else Val("expr", (a_, dict(env)))
+                    self._depth = depth_ + 1
+                    saved = getattr(self, "returns", [])
+                    self.returns = []
+                    try:
+                        out_ = self.returns + self.block_value(hf_["body"], env2)
+                        out_ = (self.returns + out_)[:MAX_PATHS] if False else out_
+                    finally:
+                        self._depth = depth_
+                        self.returns = saved
+                    return out_[:MAX_PATHS] or [(("unk", "helper %s" % H.last(d)),)]
+                return [(("unk", "text helper %s" % H.last(d)),)]
             if d in self.printers:
                 p = self.path_of(n["args"][0], env) if n["args"] else None
                 tag = H.last(d)
                 if p is not None:
-                    if tag in ("format_record_key",):
+                    if tag in ("format_record_key",) or d in self.key_fns:
                         return [(("ident", p, "record-key"),)]
                     return [(("child", p, tag),)]
                 # printing a value that is not part of the node (e.g. a captured value)
@@ -346,6 +390,16 @@ class Interp:
             env2 = dict(env)
             sub = self.seqs(e["args"][0], env2)
             acc[name] = self.cross(acc[name], sub)
+            return
+        if k in ("Call", "MethodCall"):
+            touched = [H.path_local(a_) for a_ in ([e.get("recv")] if k == "MethodCall" else []) + list(e.get("args", [])) if a_ is not None and H.path_local(a_) in acc]
+            if touched and not (k == "MethodCall" and e["name"] in ("push_str", "push")):
+                for name in touched:
+                    acc[name] = self.cross(acc[name], [(("unk", "buffer handed to %s" % (e.get("name") or H.last(e.get("def") or "?"))),)])
+                return
+        if k == "Macro" and e.get("name") in ("write", "writeln") and e.get("args") and H.path_local(e["args"][0]) in acc:
+            name = H.path_local(e["args"][0])
+            acc[name] = self.cross(acc[name], [(("unk", "write! into the buffer"),)])
             return
         if k == "For":
             src = self.path_of(e["iter"], env)
